@@ -8,7 +8,12 @@
   returns-clique-marginals       loopy_belief_propagation returns what clique_marginals computed from its own messages
   identity-compare               attribute / clique names are excluded from a complement by identity (`is not`) only when both names
                                  range over the same container; names from different containers must be compared by equality
-Not decided: exactness on acyclic structures (a numerical fixed-point statement).
+  gbp-message-sets               the three message sets of the minimal region-graph propagation are instances of ONE recipe - In(x) =
+                                 edges entering the sub-graph below x from outside: {(s, x) : s parent of x} + {(q, d) : d descendant of x,
+                                 q parent of d, q not x, q not a descendant of x} - and must agree as such: B[r] = In(r), N[p,r] = In(p),
+                                 D[p,r] = In(r) without (p, r).  (Sibling agreement: an edit to one instance that is not made to the
+                                 others makes GBP converge to a wrong fixed point on region graphs deep enough to tell them apart.)
+Not decided: exactness on acyclic structures as a numerical statement (only the agreement of the message sets above).
 """
 import ast
 
@@ -65,6 +70,7 @@ def run(ctx):
                'must return self.clique_marginals(<messages>, <messages>, %s); returns `%s`' % (pot, U(v) if v is not None else None))
     check_identity_compares(ctx)
     ctx.floor('returned-table constructions', n_ret, 2)
+    check_gbp_sets(ctx)
     ctx.floor('exp sites', sum(1 for o in ctx.obligations if o.rule == 'exp-normalised'), 2)
 
 
@@ -98,3 +104,85 @@ def check_identity_compares(ctx):
                            '`%s`: `%s` ranges over `%s`, `%s` over `%s`; equal names held by different containers need not be the same '
                            'object, identity is only sound within one container' % (U(c), U(c.left), a, U(c.comparators[0]), b))
     ctx.count('identity comparisons of names', n)
+
+
+def check_gbp_sets(ctx):
+    """sibling agreement of the B / N / D message-set recipes in RegionGraph.build_graph (minimal branch)"""
+    from ..engines.blockeval import BlockEval, T
+    from ..normalise import single_exit
+    from ..srcmodel import clone
+    fi = ctx.repo.nfunc(RG, 'RegionGraph.build_graph')
+    ctx.analysed(fi)
+    stmts, _ = single_exit(clone(fi.body), '__ret__')
+    be = BlockEval(fi.qualname, loop_ok=lambda s_: True)
+    be.run(stmts)
+    # which containers become self.N / self.D / self.B under `self.minimal`
+    roles = {}
+    for t_, v, s_ in be.stores:
+        pass
+    recipes = {}     # container name -> list of (canonical element, canonical generators, index vars, stmt)
+    for s_, c, pc, loops in be.calls:
+        f = c.func
+        if not (isinstance(f, ast.Attribute) and f.attr == 'add' and isinstance(f.value, ast.Subscript) and isinstance(f.value.value, ast.Name)
+                and len(c.args) == 1):
+            continue
+        if not any(T(x) == 'self.minimal' and pol for x, pol in pc):
+            continue
+        cont = f.value.value.id
+        idx = f.value.slice
+        idx_vars = [U(e) for e in (idx.elts if isinstance(idx, ast.Tuple) else [idx])]
+        inner = [(t, it) for t, it in loops if U(t) not in idx_vars]
+        if not inner:
+            raise AnalysisError('build_graph: message-set element `%s` is not generated by a loop' % U(c)[:60])
+        # the centre: the index variable whose parents / descendants the first inner loop ranges over
+        first = T(inner[0][1])
+        centre = [v for v in idx_vars if '[%s]' % v in first]
+        if len(centre) != 1:
+            raise AnalysisError('build_graph: cannot tell which region the set `%s` is built around' % U(f.value))
+        x = centre[0]
+        ren = {x: '_x'}
+        for i, (t, it) in enumerate(inner):
+            ren[U(t)] = '_g%d' % i
+
+        class R(ast.NodeTransformer):
+            def visit_Name(self, n):
+                return ast.Name(id=ren.get(n.id, n.id), ctx=n.ctx)
+        gens = [T(R().visit(clone(it))) for t, it in inner]
+        elt = T(R().visit(clone(c.args[0])))
+        recipes.setdefault(cont, []).append((elt, gens, [v for v in idx_vars if v != x], x, s_))
+    if not recipes:
+        raise AnalysisError('build_graph: minimal message-set construction not found')
+    # roles by the attribute they are stored into
+    named = {}
+    for t_, v, s_ in be.stores:
+        if t_ in ('self.N', 'self.D', 'self.B') and isinstance(v, ast.Name) and v.id in recipes:
+            named[t_[-1]] = v.id
+    if set(named) != {'N', 'D', 'B'}:
+        raise AnalysisError('build_graph: the sets stored as self.N / self.D / self.B were not all found (%s)' % sorted(named))
+
+    def parts(role):
+        direct = [r for r in recipes[named[role]] if len(r[1]) == 1]
+        deep = [r for r in recipes[named[role]] if len(r[1]) == 2]
+        if len(direct) != 1 or len(deep) != 1 or len(recipes[named[role]]) != 2:
+            raise AnalysisError('build_graph: message set %s is not built from one direct and one descendant part' % role)
+        return direct[0], deep[0]
+    Bd, Bp = parts('B')
+    Nd, Np = parts('N')
+    Dd, Dp = parts('D')
+    ctx.ob('gbp-message-sets', fi, Nd[4], (Nd[0], Nd[1]) == (Bd[0], Bd[1]),
+           'N[p,r] must collect the parents of its region exactly as B does: B builds {%s | %s}, N builds {%s | %s}' % (Bd[0], Bd[1], Nd[0], Nd[1]),
+           construct='direct part of N')
+    ctx.ob('gbp-message-sets', fi, Np[4], (Np[0], Np[1]) == (Bp[0], Bp[1]),
+           'N[p,r] must collect the outside parents of its region\'s descendants exactly as B does: B builds {%s | %s}, N builds {%s | %s}'
+           % (Bp[0], Bp[1], Np[0], Np[1]), construct='descendant part of N')
+    ctx.ob('gbp-message-sets', fi, Dp[4], (Dp[0], Dp[1]) == (Bp[0], Bp[1]),
+           'D[p,r] must collect the outside parents of its region\'s descendants exactly as B does: B builds {%s | %s}, D builds {%s | %s}'
+           % (Bp[0], Bp[1], Dp[0], Dp[1]), construct='descendant part of D')
+    other = Dd[2][0] if Dd[2] else '?'
+    want = ['set(%s)-{%s}' % (Bd[1][0], other)]
+    ctx.ob('gbp-message-sets', fi, Dd[4], Dd[0] == Bd[0] and Dd[1] == want,
+           'D[p,r] must collect the parents of r other than p: expected {%s | %s}, builds {%s | %s}' % (Bd[0], want, Dd[0], Dd[1]),
+           construct='direct part of D')
+    ctx.ob('gbp-message-sets', fi, Nd[4], Nd[3] != Dd[3],
+           'N is built around the sending region and D around the receiving region of a message (different index positions)',
+           construct='centres of N and D')
